@@ -66,6 +66,12 @@ func (c *cursorManager) Initialize() error {
 		Subject:    c.getCursorStreamSubject(),
 		Partitions: partitions,
 		Config: &proto.StreamConfig{
+			// Cursors are retained until they are replaced. Compaction keeps
+			// the latest value of each cursor, so don't let the retention
+			// limits configured for streams expire them.
+			RetentionMaxBytes:             &proto.NullableInt64{Value: 0},
+			RetentionMaxMessages:          &proto.NullableInt64{Value: 0},
+			RetentionMaxAge:               &proto.NullableInt64{Value: 0},
 			CompactEnabled:                &proto.NullableBool{Value: true},
 			AutoPauseTime:                 &proto.NullableInt64{Value: c.config.CursorsStream.AutoPauseTime.Milliseconds()},
 			AutoPauseDisableIfSubscribers: &proto.NullableBool{Value: true},
